@@ -153,6 +153,17 @@ func (e *c20Engine) watchdog() {
 			os.Exit(3)
 		}
 		fmt.Fprintf(os.Stderr, "watchdog: %s\n", class)
+		if cf := os.Getenv("VERIF_CRASH_FILE"); cf != "" && e.curTrace != nil && os.Getenv("VERIF_LIN_INPROC") == "" {
+			// batch mode: leave the run in progress (with the schedule so
+			// far) for the orchestrator, which replays it in a fresh process
+			t := e.curTrace
+			if a := active; a != nil {
+				t.Schedule = a.Chosen()
+			}
+			t.Viol = &kit.Violation{Class: class, Key: class, Detail: "a task blocked forever inside sync.Mutex.Lock called from the code under test"}
+			_ = t.WriteFile(cf)
+			os.Exit(4)
+		}
 		fmt.Printf("{\"violation\":{\"class\":%q,\"key\":%q,\"detail\":\"a task blocked forever inside sync.Mutex.Lock called from the code under test (no simulation point precedes this Lock, or the mutex was left locked)\",\"step\":0},\"steps\":0,\"sig\":0}\n", class, class)
 		os.Exit(1)
 	}
@@ -205,6 +216,9 @@ func (e *c20Engine) generate(seed uint64) (*kit.Trace, *kit.Rng) {
 		t.Sites = []int{siteOpStart}
 	}
 	if kind == kindGCS {
+		if cr.Chance(1, 4) {
+			t.Config["gcs_warm"] = 1
+		}
 		e.genGCS(t, cr, wr, nt, maxOps)
 		return t, root.Sub("schedule")
 	}
@@ -429,6 +443,7 @@ type c20World struct {
 	filter *bloom.Filter
 
 	gf      *gcs.Filter
+	gM      uint64
 	gkey    [16]byte
 	gitems  [][]byte
 	gq      [][][]byte
@@ -491,6 +506,7 @@ func buildWorld(t *kit.Trace) (*c20World, error) {
 			return nil, err
 		}
 		w.gf = f
+		w.gM = uint64(gM)
 		return w, nil
 	}
 	if len(w.msgs) == 0 {
@@ -734,11 +750,32 @@ func (e *c20Engine) execute(t *kit.Trace, srng *kit.Rng, st *kit.Stats, record b
 
 	if w.kind == kindGCS {
 		// single-threaded answers first (no scheduler active)
+		// They are computed on a TWIN filter built from the same inputs, so
+		// the shared filter reaches the tasks untouched: lazily built state
+		// inside the "immutable" filter must be met for the first time
+		// concurrently (a warm-up on the shared object would hide it). Some
+		// runs warm the shared filter up on purpose.
+		shared := w.gf
+		twin, err := gcs.BuildGCSFilter(shared.P(), w.gM, w.gkey, w.gitems)
+		if err != nil {
+			st.Runs++
+			return out
+		}
+		w.gf = twin
 		w.gexpect = make([][]int64, nt)
 		for c := 0; c < nt; c++ {
 			for _, o := range t.Clients[c] {
 				w.gexpect[c] = append(w.gexpect[c], w.doGCS(o))
 			}
+		}
+		w.gf = shared
+		if t.Cfg("gcs_warm", 0) == 1 {
+			for _, o := range t.Clients[0] {
+				w.doGCS(o)
+			}
+			st.Probe("gcs-filter-warmed-up-before-tasks")
+		} else {
+			st.Probe("gcs-filter-first-used-concurrently")
 		}
 	}
 
